@@ -15,3 +15,5 @@ INVARIANTS
   C14_NoLengtheningConfed_KF
   C14_IgnoreLongerAs4
   C14_IgnoreLongerAs4Confed_KF
+  C14_GroupInputIntact
+  C14_SharedListUnchanged
